@@ -163,6 +163,26 @@ def write_zip_gp_bits(entries, comp, bits, level=None):
     return bytes(raw)
 
 
+def write_zip_streamed(entries, comp):
+    """a ZIP written to a pipe (zip - ... | ..., zipfile on an unseekable stream): sizes and CRC follow the data in a data
+    descriptor, general purpose bit 3 is set on every member"""
+    class Sink:
+        def __init__(self):
+            self.data = bytearray()
+
+        def write(self, b):
+            self.data += b
+            return len(b)
+
+        def flush(self):
+            pass
+    sink = Sink()
+    with zipfile.ZipFile(sink, "w", comp) as z:
+        for n, d in entries:
+            z.writestr(n + "/" if d is None else n, b"" if d is None else d)
+    return bytes(sink.data)
+
+
 def write_tar(entries, mode, fmt=tarfile.DEFAULT_FORMAT):
     buf = io.BytesIO()
     with tarfile.open(fileobj=buf, mode=mode, format=fmt) as t:
@@ -214,6 +234,8 @@ LAYOUTS += [("tar-gnu", "a.tar", lambda e: write_tar(e, "w", tarfile.GNU_FORMAT)
 LAYOUTS += [("zip-deflated-gp-maximum", "a.zip", lambda e: write_zip_gp_bits(e, zipfile.ZIP_DEFLATED, 0x02, 9)),
             ("zip-deflated-gp-fast", "a.zip", lambda e: write_zip_gp_bits(e, zipfile.ZIP_DEFLATED, 0x04, 2)),
             ("zip-deflated-gp-superfast", "a.zip", lambda e: write_zip_gp_bits(e, zipfile.ZIP_DEFLATED, 0x06, 1))]
+LAYOUTS += [("zip-deflated-streamed-data-descriptor", "a.zip", lambda e: write_zip_streamed(e, zipfile.ZIP_DEFLATED)),
+            ("zip-stored-streamed-data-descriptor", "a.zip", lambda e: write_zip_streamed(e, zipfile.ZIP_STORED))]
 # LZMA1 coders with tuned lc / lp / pb and a dictionary that is not the preset's
 LAYOUTS += [("7z-lzma-lc4-solid", "a.7z", lambda e: write7z(e, "lzma:lc=4", True)),
             ("7z-lzma-lc0-lp2-folder-per-file", "a.7z", lambda e: write7z(e, "lzma:lc=0:lp=2", False)),
